@@ -8,6 +8,7 @@ afterwards.  The workload adds the metamorphic probes (elementwise, aliases, wea
 import copy
 import os
 import json
+import warnings
 
 import numpy as np
 
@@ -264,6 +265,33 @@ def run_case(ctx, case):
         out2 = np.array(c.calculate(np.array(r), np.array(gam)), dtype=float)
         if not np.array_equal(out, out2, equal_nan=True):
             ctx.violation('closure:not-repeatable', '%s: second identical call differs' % cname)
+        # --- inside the core the relation is NOT applied: with the flag on, c = -1 - gamma there for ANY real gamma, and nothing else
+        #     is computed from the core values.  Observable for a caller who runs with floating-point errors / warnings escalated
+        #     (np.errstate(over='raise'), python -W error): a gamma that is huge ONLY inside the core must not raise.  The
+        #     baseline call under the same regime decides whether the regime itself is tolerable for this case (outside points).
+        core = r <= sigma
+        if hc and core.any() and gam.dtype.kind == 'f' and np.isfinite(u[~core]).all():
+            def strict(gv):
+                with warnings.catch_warnings():
+                    warnings.simplefilter('error')
+                    with np.errstate(over='raise', invalid='raise', divide='raise', under='ignore'):
+                        return np.array(fresh().calculate(np.array(r), np.array(gv)), dtype=float)
+            try:
+                base = strict(gam)
+            except (FloatingPointError, Warning):
+                base = None
+                ctx.count('strict_core_probe', 'baseline-not-strict-clean')
+            if base is not None:
+                ctx.hook('strict_core_probe')
+                g2 = np.array(gam, dtype=float)
+                g2[core] = np.abs(g2[core]) + float(rng.choice([720.0, 800.0, 5000.0]))
+                try:
+                    o2 = strict(g2)
+                except (FloatingPointError, Warning) as e:
+                    ctx.violation('closure:relation-evaluated-inside-core', '%s(hc=True): with gamma large only at r <= sigma the call raises %s under escalated floating-point errors, while the same call with moderate core values is clean: the relation is computed from core points' % (cname, type(e).__name__))
+                else:
+                    if not np.array_equal(o2[core], -1.0 - g2[core]) or not np.array_equal(o2[~core], base[~core], equal_nan=True):
+                        ctx.violation('closure:core-value-wrong:large-gamma', '%s(hc=True): c != -1-gamma inside the core or outside values changed when only core gammas changed' % cname)
         # --- an array returned earlier is not disturbed by later calls on the same object, also when it is fed back as gamma
         craw = c.calculate(np.array(r), np.array(gam))
         ckeep = np.array(craw, copy=True)
